@@ -153,7 +153,10 @@ pub fn unit(ty: &Ty) -> usize {
 /// All zero-copy types nested in `ty` whose unit is not a power of two
 /// (e.g. `RangeTo<Z12>`): the padding rule is not well defined for them.
 pub fn has_odd_unit(ty: &Ty) -> bool {
-    let own = ty.is_zero() && !unit(ty).is_power_of_two();
+    // Ranges that are not `Copy` are never written as a zero-copy block (they
+    // are serialised field by field), so their own unit is never used.
+    let never_block = matches!(ty, Ty::Range(k, _) if !k.is_copy());
+    let own = ty.is_zero() && !never_block && !unit(ty).is_power_of_two();
     own || match ty {
         Ty::Phantom(_) => false,
         Ty::Vec(t) | Ty::BoxSlice(t) | Ty::Array(t, _) | Ty::Tuple(t, _) | Ty::Opt(t) | Ty::Range(_, t) | Ty::Bound(t) => {
